@@ -81,6 +81,15 @@ pub fn main() -> i32 {
         "C11" => refsearch::run(&args),
         "C12" => mates::run(&args),
         "C16" => determ::run(&args),
+        "fork-bench" => {
+            // debug: time one fork sweep (single process)
+            let d: u8 = args.rest.first().and_then(|x| x.parse().ok()).unwrap_or(4);
+            searchrun::quiet_panics();
+            let t = std::time::Instant::now();
+            let n = cutprops::fork_bench(d);
+            eprintln!("depth {d}: {n} forks in {:.2}s = {:.0} us/fork", t.elapsed().as_secs_f64(), t.elapsed().as_secs_f64() * 1e6 / n as f64);
+            0
+        }
         "tt-size" => {
             // debug: cache entries after a fixed-depth search
             let fen = args.rest.first().cloned().unwrap_or_default();
